@@ -161,6 +161,13 @@ func seeds(small bool) []seed {
 		v.AddrMe.Timestamp = time.Time{}
 		add("version", fmt.Sprint("lastblock ", lb), v)
 	}
+	// the peer's own version number is a field value like any other: it need not equal the
+	// version the connection speaks (relay flag set, field below / at / above each boundary)
+	for _, pv := range []int32{209, 31402, 60002, 70000, 70001, 70013, 80000} {
+		v := zeroT(baseV())
+		v.ProtocolVersion, v.DisableRelayTx = pv, true
+		add("version", fmt.Sprint("no-relay, protocol field ", pv), v)
+	}
 	// addr
 	for _, c := range counts(wire.MaxAddrPerMsg) {
 		m := wire.NewMsgAddr()
